@@ -1,6 +1,6 @@
 (* C33 -- the boolean checks evaluated (vm_compute) on the table dumped from the code in this run *)
 From Coq Require Import List Bool Arith NArith Ascii String.
-From C33 Require Import C32Spec C32Model C32Proofs C33Model C33General C33_gen.
+From C33 Require Import C32Spec C32Model C32Proofs C33Model C33General C33Roundtrip C33_gen.
 Import ListNotations.
 
 Lemma table_ok : check_table table = true.
@@ -8,3 +8,7 @@ Proof. vm_compute. reflexivity. Qed.
 Lemma roundtrip_ok : check_roundtrip table = true.
 Proof. vm_compute. reflexivity. Qed.
 
+(* the side conditions of the general round-trip theorem (C33Roundtrip.v): characters = lead byte + continuation bytes,
+   prefix-free; names = mangling prefix ++ ..., ASCII, first byte not repeated, prefix-free *)
+Lemma general_table_ok : general_okb table = true.
+Proof. vm_compute. reflexivity. Qed.
